@@ -724,7 +724,15 @@ def fx_world(eng, st, pname):
                 res.append((s_, (VAL, v)))
                 return res
             return h
-        return eng_.ok(s, s.alloc(HObj("opaque", None, meta={"tag": "storage", "methods": {m: mk(m) for m in ("create", "update", "delete", "close")}})))
+        methods = {m: mk(m) for m in ("create", "update", "delete", "close")}
+        if args:
+            rows = args[0]          # read_all(tag) returns these rows (a dict built by the lemma)
+
+            def read_all(e_, s_, r_, a_, k_):
+                s_.effects.append(Effect("storage", "storage:read_all", list(a_), {"_held": s_.ghost.get("held", 0)}, rows))
+                return e_.ok(s_, rows)
+            methods["read_all"] = read_all
+        return eng_.ok(s, s.alloc(HObj("opaque", None, meta={"tag": "storage", "methods": methods, "truthy": True})))
 
     fields = {"mgr": w["manager"], "state": w["state"], "p0": w["providers"][0], "p1": w["providers"][1],
               "providers": T(w["providers"]), "nmgr": w["nmgr"]}
